@@ -165,8 +165,10 @@ func (q *queryExecutor) do(ctx context.Context, qry ExecutableQuery, hostIter Ne
 		}
 
 		// Exit if the query was successful
-		// or no retry policy defined or retry attempts were reached
-		if iter.err == nil || rt == nil || !rt.Attempt(qry) {
+		// or no retry policy defined
+		// or the query is not idempotent (it must not be executed twice)
+		// or retry attempts were reached
+		if iter.err == nil || rt == nil || !qry.IsIdempotent() || !rt.Attempt(qry) {
 			return iter
 		}
 		lastErr = iter.err
